@@ -12,8 +12,8 @@ pub fn n_cases(prop: &str, tier: &str) -> usize {
     match prop {
         "C12" => if quick { 3000 } else { 100_000 },
         "C20" => if quick { 400 } else { 4000 },
-        "C01" | "C02" => if quick { 400 } else { 20_000 },
-        "C03" => if quick { 300 } else { 10_000 },
+        "C01" | "C02" => if quick { 400 } else { SMALL_SCOPE + 40_000 },
+        "C03" => if quick { 300 } else { SMALL_SCOPE + 20_000 },
         "C15" => if quick { 600 } else { 30_000 },
         "C16" => if quick { 150 } else { 4000 },
         "C19" => if quick { 300 } else { 10_000 },
@@ -26,9 +26,9 @@ pub fn gen_case(prop: &str, tier: &str, rng: &mut Rng, idx: usize) -> Case {
     match prop {
         "C12" => c12(rng, idx),
         "C20" => c20(rng, tier, idx),
-        "C01" => onto_case(rng, "C01", idx),
-        "C02" => onto_case(rng, "C02", idx),
-        "C03" => onto_case(rng, "C03", idx),
+        "C01" => onto_case(rng, "C01", tier, idx),
+        "C02" => onto_case(rng, "C02", tier, idx),
+        "C03" => onto_case(rng, "C03", tier, idx),
         "C15" => c15(rng, idx),
         "C16" => c16(rng, tier, idx),
         "C19" => c19(rng, idx),
@@ -186,7 +186,85 @@ fn c20(rng: &mut Rng, tier: &str, idx: usize) -> Case {
 
 // ---------------------------------------------------------------- ontology cases
 
-fn onto_case(rng: &mut Rng, prop: &str, idx: usize) -> Case {
+/// k-th permutation of 0..n (factorial number system)
+fn nth_perm(n: usize, mut k: usize) -> Vec<usize> {
+    let mut items: Vec<usize> = (0..n).collect();
+    let mut out = vec![];
+    let mut f: usize = (1..n).product();
+    for i in (0..n).rev() {
+        let q = k / f;
+        k %= f;
+        out.push(items.remove(q));
+        if i > 0 {
+            f /= i;
+        }
+    }
+    out
+}
+
+/// number of exhaustively enumerated small-scope cases in the thorough tier
+pub const SMALL_SCOPE: usize = 64 * 24 * 24 + 8 * 6 * 6;
+
+/// Small-scope exhaustive enumeration: every DAG on 4 (then 3) nodes given a topological order
+/// (every subset of the forward edges), every assignment of 4 numerically ordered ids to the nodes,
+/// every order of the `new_term` calls.
+fn small_scope_case(prop: &str, idx: usize) -> Case {
+    let mut c = Case::new("small-scope-exhaustive");
+    let (n, i) = if idx < 64 * 24 * 24 { (4usize, idx) } else { (3usize, idx - 64 * 24 * 24) };
+    let nperm: usize = (1..=n).product();
+    let nedges = n * (n - 1) / 2;
+    let mask = i / (nperm * nperm);
+    let idp = nth_perm(n, (i / nperm) % nperm);
+    let insp = nth_perm(n, i % nperm);
+    let pool = [3u32, 57, 400, 9_999_999];
+    let ids: Vec<u32> = (0..n).map(|k| pool[idp[k]]).collect();
+    c.op("new".to_string());
+    for k in 0..n {
+        c.op(format!("term {} {}", ids[insp[k]], name("t")));
+    }
+    c.op("complete".to_string());
+    let mut e = 0;
+    let mut nedge = 0u64;
+    for child in 1..n {
+        for parent in 0..child {
+            if mask & (1 << e) != 0 {
+                c.op(format!("parent {} {}", ids[parent], ids[child]));
+                nedge += 1;
+            }
+            e += 1;
+        }
+    }
+    debug_assert_eq!(e, nedges);
+    c.op("connect".to_string());
+    if prop != "C01" {
+        // one record per kind on the last node and one on node 1: inheritance along every shape
+        for k in 0..3 {
+            c.op(format!("ann {} 1 {} {}", KINDS[k], name("r"), ids[n - 1]));
+            c.op(format!("ann {} 2 {} {}", KINDS[k], name("s"), ids[1]));
+        }
+    }
+    c.op("ic".to_string());
+    c.op("build min 0".to_string());
+    c.op("dump 0".to_string());
+    match prop {
+        "C01" => {
+            c.op("rel 0".to_string());
+            c.op("oracle closure 0".to_string());
+        }
+        "C02" => c.op("oracle inherit 0".to_string()),
+        "C03" => c.op("oracle ic 0".to_string()),
+        _ => {}
+    }
+    c.stat("small_scope_cases", 1);
+    c.stat("small_scope_edges", nedge);
+    c.nontrivial = nedge >= 2;
+    c
+}
+
+fn onto_case(rng: &mut Rng, prop: &str, tier: &str, idx: usize) -> Case {
+    if tier == "thorough" && idx < SMALL_SCOPE {
+        return small_scope_case(prop, idx);
+    }
     if idx % 40 == 7 {
         // deep chains (depth 40..110, beyond any shipped ontology), terms supplied leaf first,
         // root first or shuffled: recursion depth of the closure / link computation
